@@ -724,5 +724,33 @@ package sam
 //@   after call:Fprintln#1: assert [c12.refrecord] written(os.Stdout)[len(written(os.Stdout)) - 1] == ">" + AP.refname + "\n"
 //@   before send#5: assert [c12.all] implies(p == "stdout", gDone == len(recv(cPair)) && len(written(os.Stdout)) == ite(omitRef, 2, 4) * len(recv(cPair)))
 
+//@ # C01/C15/C18/C19: the orchestration of `sam toMultiAlign` in spawns mode (model and assumptions: see closest.Closest).
+//@ # Proved: the reader, the writer the --wrap option selects and every worker are started on the right channels with the
+//@ # window that checkArgs returned and the --pad flag as given; an error received from any stage (also while waiting for
+//@ # the header) is returned; a nil return means none was received and reader, workers and writer signalled completion.
 //@ func ToMultiAlign spawns
 //@   modifies everything
+//@   after assign:cWaitGroupDone#1: assume [env.errors] forallint(k, envat(cErr, k) != nil)
+//@   ghost gErrSeen bool = false
+//@   before call:groupSamRecords#1: assert [c01.reader] arg(0) == samIn && arg(1) == cSH && arg(2) == cSR && arg(3) == cReadDone && arg(4) == cErr
+//@   before call:WriteWrapAlignment#1: assert [c15.writer.wrap] wrap > 0 && arg(0) == cFR && arg(1) == out && arg(2) == wrap && arg(3) == cWriteDone && arg(4) == cErr
+//@   before call:WriteAlignment#1: assert [c15.writer] wrap <= 0 && arg(0) == cFR && arg(1) == out && arg(2) == cWriteDone && arg(3) == cErr
+//@   before call:blockToFastaRecord#1: assert [c01.worker] arg(0) == cSR && arg(1) == cFR && arg(2) == cErr && arg(3) == refLen && arg(4) == trim && arg(5) == pad && arg(6) == trimstart && arg(7) == trimend && arg(8) == false
+//@   before return#1: do gErrSeen = true
+//@   before return#1: assert [c18.error.first] len(recvd(cErr)) == 1 && err == recvd(cErr)[0]
+//@   loop 1:
+//@     invariant !gErrSeen && len(recvd(cErr)) == 0 && len(recvd(cReadDone)) == 0 && len(recvd(cWaitGroupDone)) == 0 && len(recvd(cWriteDone)) == 0
+//@   loop 2:
+//@     invariant !gErrSeen && len(recvd(cErr)) == 0 && 0 <= n && n <= 1 && len(recvd(cReadDone)) + n == 1 && len(recvd(cWaitGroupDone)) == 0 && len(recvd(cWriteDone)) == 0
+//@   loop 3:
+//@     invariant !gErrSeen && len(recvd(cErr)) == 0 && len(recvd(cReadDone)) == 1 && 0 <= n && n <= 1 && len(recvd(cWaitGroupDone)) + n == 1 && len(recvd(cWriteDone)) == 0
+//@   loop 4:
+//@     invariant !gErrSeen && len(recvd(cErr)) == 0 && len(recvd(cReadDone)) == 1 && len(recvd(cWaitGroupDone)) == 1 && 0 <= n && n <= 1 && len(recvd(cWriteDone)) + n == 1
+//@   before return#4: do gErrSeen = true
+//@   before return#5: do gErrSeen = true
+//@   before return#6: do gErrSeen = true
+//@   before return#4: assert [c18.error.first] len(recvd(cErr)) == 1 && err == recvd(cErr)[0]
+//@   before return#5: assert [c18.error.first] len(recvd(cErr)) == 1 && err == recvd(cErr)[0]
+//@   before return#6: assert [c18.error.first] len(recvd(cErr)) == 1 && err == recvd(cErr)[0]
+//@   before return#7: assert [c18.nil.means.clean] len(recvd(cErr)) == 0 && len(recvd(cReadDone)) == 1 && len(recvd(cWaitGroupDone)) == 1 && len(recvd(cWriteDone)) == 1
+//@   ensures [c18.error.returned] implies(gErrSeen, result != nil)
